@@ -39,6 +39,39 @@ CLAIMED['C03'] = dict(
          'whose model exists (see evidence theorems list); the others are covered by judging the implementation outputs with the proved decider.',
     technique='Lean 4 proof (invariant preserved by every constructor) + proved decider run on implementation outputs + typed-AST correspondence')
 
+CLAIMED['C02'] = dict(
+    text='Lean 4 theorems: sanityCheck (the model of HplProperty.sanity_check, threading the tuple of available aliases exactly as the four '
+         '_check_* helpers do) accepts exactly the WellScoped scope/pattern pairs (declarative judgement over free references and aliases per '
+         'binding position); mkProperty/butProp run it on every route, so no Property value bypasses it; mkDisj accepts iff channels are '
+         'distinct; mkQuant enforces the three hygiene conditions; failures are sanity errors. The constructor guarantees the iff assumes '
+         '(quantifier invariant, non-empty aliases) are proved for everything the parser builds (build_quantOK, buildSimple_EvOK). The grid of '
+         '77k shapes over {X,Y} is run exhaustively in the thorough tier.',
+    design_ref='DESIGN.md §6 C02',
+    note='Trusted: Lean kernel and standard axioms; dumper/codec; correspondence sampling. Reading of (ii): the same alias on two alternatives '
+         'of one disjunction is not a second binding along the chain (stated in Props/C02.lean).',
+    technique='Lean 4 proof (iff between the checker model and a declarative scoping judgement) + proved decider on implementation verdicts + grid enumeration')
+CLAIMED['C11'] = dict(
+    text='Lean 4 theorems about the model of canonical_form: canonical_self, canonical_eq_spec (a successful result is exactly the product of the '
+         'activator alternatives with the split-event alternatives, activator-major, source order, all other fields and metadata copied), '
+         'canonicalSpec_fields / canonicalSpec_unsplit (never-split positions per pattern), canonical_idempotent, and the characterisation of '
+         'the failing case; pattern/scope predicate tables regenerated from the enums and re-proved by decide. Tied to the code by an exhaustive '
+         'shape enumeration (scope x pattern x width 1..4 per position, both nestings). One known finding: canonical_form raises when a split '
+         'unbinds an alias (recorded, narrow signature).',
+    design_ref='DESIGN.md §6 C11',
+    note='Trusted: Lean kernel and standard axioms; extract_tables.py; dumper/codec; the enumeration instantiates each shape with random '
+         'predicates/aliases/times/metadata (sampled).',
+    technique='Lean 4 proof (model = product specification, idempotence) + exhaustive shape correspondence')
+CLAIMED['C12'] = dict(
+    text='Lean 4 theorem canonical_sat_iff: for every property with a simple activator, every finite timed trace (no length bound), every '
+         'interpretation of predicates and both readings of after-until re-activation, the trace satisfies the property iff it satisfies every '
+         'property of canonical p; plus kernel-checked counterexamples showing that splitting existence or response behaviours is not '
+         'meaning-preserving (the code does not split them). The theorem is about the model canonical, tied to the code by the C11 stream '
+         'restricted to the hypothesis; implementation outputs are judged against canonicalSpec, to which canonicalSpec_sat_iff applies.',
+    design_ref='DESIGN.md §6 C12',
+    note='Trusted: the trace semantics in Hpl/Spec/Trace.lean is this project\'s formal reading of docs/lang.md (the repository has no semantics '
+         'document); predicate satisfaction is a parameter. No bounded model checking is used to decide the property.',
+    technique='Lean 4 proof over all finite traces (distribution of matching over alternatives) + C11 correspondence under the hypothesis')
+
 NOT_YET = {}
 
 
